@@ -330,6 +330,35 @@ static MockActualCall_c gActualCall = {
         returnFunctionPointerValueOrDefault_c
 };
 
+/* The return value getters of the mock_c() table ask the selected MockSupport, like the C++ mock().xxxReturnValue() do;
+ * the current actual call (if there is one at all) may belong to another scope, be ignored or already be destroyed. */
+static MockValue_c getMockValueCFromNamedValue(const MockNamedValue& namedValue);
+static MockValue_c supportReturnValue_c() { return getMockValueCFromNamedValue(currentMockSupport->returnValue()); }
+static int supportBoolReturnValue_c() { return currentMockSupport->boolReturnValue() ? 1 : 0; }
+static int supportReturnBoolValueOrDefault_c(int defaultValue) { return currentMockSupport->hasReturnValue() ? supportBoolReturnValue_c() : defaultValue; }
+static int supportIntReturnValue_c() { return currentMockSupport->intReturnValue(); }
+static int supportReturnIntValueOrDefault_c(int defaultValue) { return currentMockSupport->returnIntValueOrDefault(defaultValue); }
+static unsigned int supportUnsignedIntReturnValue_c() { return currentMockSupport->unsignedIntReturnValue(); }
+static unsigned int supportReturnUnsignedIntValueOrDefault_c(unsigned int defaultValue) { return currentMockSupport->returnUnsignedIntValueOrDefault(defaultValue); }
+static long int supportLongIntReturnValue_c() { return currentMockSupport->longIntReturnValue(); }
+static long int supportReturnLongIntValueOrDefault_c(long int defaultValue) { return currentMockSupport->returnLongIntValueOrDefault(defaultValue); }
+static unsigned long int supportUnsignedLongIntReturnValue_c() { return currentMockSupport->unsignedLongIntReturnValue(); }
+static unsigned long int supportReturnUnsignedLongIntValueOrDefault_c(unsigned long int defaultValue) { return currentMockSupport->returnUnsignedLongIntValueOrDefault(defaultValue); }
+static cpputest_longlong supportLongLongIntReturnValue_c() { return currentMockSupport->longLongIntReturnValue(); }
+static cpputest_longlong supportReturnLongLongIntValueOrDefault_c(cpputest_longlong defaultValue) { return currentMockSupport->returnLongLongIntValueOrDefault(defaultValue); }
+static cpputest_ulonglong supportUnsignedLongLongIntReturnValue_c() { return currentMockSupport->unsignedLongLongIntReturnValue(); }
+static cpputest_ulonglong supportReturnUnsignedLongLongIntValueOrDefault_c(cpputest_ulonglong defaultValue) { return currentMockSupport->returnUnsignedLongLongIntValueOrDefault(defaultValue); }
+static const char* supportStringReturnValue_c() { return currentMockSupport->stringReturnValue(); }
+static const char* supportReturnStringValueOrDefault_c(const char* defaultValue) { return currentMockSupport->returnStringValueOrDefault(defaultValue); }
+static double supportDoubleReturnValue_c() { return currentMockSupport->doubleReturnValue(); }
+static double supportReturnDoubleValueOrDefault_c(double defaultValue) { return currentMockSupport->returnDoubleValueOrDefault(defaultValue); }
+static void* supportPointerReturnValue_c() { return currentMockSupport->pointerReturnValue(); }
+static void* supportReturnPointerValueOrDefault_c(void* defaultValue) { return currentMockSupport->returnPointerValueOrDefault(defaultValue); }
+static const void* supportConstPointerReturnValue_c() { return currentMockSupport->constPointerReturnValue(); }
+static const void* supportReturnConstPointerValueOrDefault_c(const void* defaultValue) { return currentMockSupport->returnConstPointerValueOrDefault(defaultValue); }
+static void (*supportFunctionPointerReturnValue_c())() { return (void (*)()) currentMockSupport->functionPointerReturnValue(); }
+static void (*supportReturnFunctionPointerValueOrDefault_c(void (*defaultValue)()))() { return (void (*)()) currentMockSupport->returnFunctionPointerValueOrDefault((cpputest_cpp_function_pointer) defaultValue); }
+
 static MockSupport_c gMockSupport = {
         strictOrder_c,
         expectOneCall_c,
@@ -337,31 +366,31 @@ static MockSupport_c gMockSupport = {
         expectNCalls_c,
         actualCall_c,
         hasReturnValue_c,
-        returnValue_c,
-        boolReturnValue_c,
-        returnBoolValueOrDefault_c,
-        intReturnValue_c,
-        returnIntValueOrDefault_c,
-        unsignedIntReturnValue_c,
-        returnUnsignedIntValueOrDefault_c,
-        longIntReturnValue_c,
-        returnLongIntValueOrDefault_c,
-        unsignedLongIntReturnValue_c,
-        returnUnsignedLongIntValueOrDefault_c,
-        longLongIntReturnValue_c,
-        returnLongLongIntValueOrDefault_c,
-        unsignedLongLongIntReturnValue_c,
-        returnUnsignedLongLongIntValueOrDefault_c,
-        stringReturnValue_c,
-        returnStringValueOrDefault_c,
-        doubleReturnValue_c,
-        returnDoubleValueOrDefault_c,
-        pointerReturnValue_c,
-        returnPointerValueOrDefault_c,
-        constPointerReturnValue_c,
-        returnConstPointerValueOrDefault_c,
-        functionPointerReturnValue_c,
-        returnFunctionPointerValueOrDefault_c,
+        supportReturnValue_c,
+        supportBoolReturnValue_c,
+        supportReturnBoolValueOrDefault_c,
+        supportIntReturnValue_c,
+        supportReturnIntValueOrDefault_c,
+        supportUnsignedIntReturnValue_c,
+        supportReturnUnsignedIntValueOrDefault_c,
+        supportLongIntReturnValue_c,
+        supportReturnLongIntValueOrDefault_c,
+        supportUnsignedLongIntReturnValue_c,
+        supportReturnUnsignedLongIntValueOrDefault_c,
+        supportLongLongIntReturnValue_c,
+        supportReturnLongLongIntValueOrDefault_c,
+        supportUnsignedLongLongIntReturnValue_c,
+        supportReturnUnsignedLongLongIntValueOrDefault_c,
+        supportStringReturnValue_c,
+        supportReturnStringValueOrDefault_c,
+        supportDoubleReturnValue_c,
+        supportReturnDoubleValueOrDefault_c,
+        supportPointerReturnValue_c,
+        supportReturnPointerValueOrDefault_c,
+        supportConstPointerReturnValue_c,
+        supportReturnConstPointerValueOrDefault_c,
+        supportFunctionPointerReturnValue_c,
+        supportReturnFunctionPointerValueOrDefault_c,
         setBoolData_c,
         setIntData_c,
         setUnsignedIntData_c,
